@@ -80,7 +80,10 @@ func cliCase(c *Case) (*Case, bool) {
 	case "indels":
 		a = append([]string{"sam", "indels", "--threshold", strconv.Itoa(o.MinCount), "--insertions-out", "insertions.txt", "--deletions-out", "deletions.txt"}, main("-s", "in.sam", "sam")...)
 	case "samvariants":
-		a = append([]string{"sam", "variants", "-r", put("ref.fasta", "ref"), "-a", put("anno."+o.AnnoSuffix, "anno"), "-t", th}, main("-s", "in.sam", "sam")...)
+		a = append([]string{"sam", "variants", "-a", put("anno."+o.AnnoSuffix, "anno"), "-t", th}, main("-s", "in.sam", "sam")...)
+		if o.RefFromFile {
+			a = append(a, "-r", put("ref.fasta", "ref"))
+		}
 		if o.Start > 0 {
 			a = append(a, "--start", strconv.Itoa(o.Start))
 		}
